@@ -38,7 +38,7 @@ theorem collect_paths_release_before_user_code : collectPaths.all noUserInLock =
 /-- a call of a generated method on consistently bound objects is a good call -/
 theorem call_of_generated {U : Type} (bk : Backend) (sk : List Sk) (hsk : sk ∈ skeletonsOf bk)
     (lobj : LockId → Nat) (vobj : Var → Nat) (lab : Var → U) :
-    wellLockedCode bk (Call.ofSk sk lobj vobj lab).bl0 (Call.ofSk sk lobj vobj lab).code0 = true := by
+    wellLockedCode bk (Call.ofSk bk sk lobj vobj lab).bl0 (Call.ofSk bk sk lobj vobj lab).code0 = true := by
   have h := generated_well_locked bk
   rw [List.all_eq_true] at h
   exact h sk hsk
@@ -213,29 +213,47 @@ theorem ensure_has (kc : Nat × Nat) (t : Tbl) : ((ensure kc t t).lookup kc.1).i
   · next h => exact h
   · simp
 
-/-- ONE SHARED CHILD.  Threads run any calls whose stores to the child tables are lookup-or-create (`labels(k)`); the value a
-lookup-or-create leaves in the table is what the call returns its child from.  Any two lookup-or-create calls for the same
-key `k` on the same parent `X0`, in any interleaving, return the same child. -/
-theorem one_shared_child (bk : Backend) (threads : List (List (Call (Nat × Nat))))
-    (hg : GoodThreads bk (fun _ => false) threads) (c0 : ICell → Tbl) (sched : List Tid) (X0 : ICell) :
-    let s := run ensure (world c0 threads) sched
-    ∀ e ∈ writesOf (s.log X0), ∀ e' ∈ writesOf (s.log X0), e.2.1.1 = e'.2.1.1 →
-      (e.2.2.lookup e.2.1.1).isSome = true ∧ e.2.2.lookup e.2.1.1 = e'.2.2.lookup e.2.1.1 := by
-  intro s e he e' he' hk
-  obtain ⟨_, hl, _, _⟩ := no_lost_update ensure (fun _ => false) (by intro u hu; cases hu) bk threads hg c0 sched X0
-  have hle := vals_le_cur Tbl.le tbl_le_refl tbl_le_trans (lin ensure) (fun u v => ensure_infl u v) (c0 X0) _ hl
+/-- lookup-or-create (`some (k, c)`) and stores that leave the table alone (`none`: the bookkeeping stores of the child's
+value constructor in the multiprocess store, which `labels()` runs under the parent lock) -/
+def ensureO : Option (Nat × Nat) → Tbl → Tbl → Tbl
+  | some kc, r, c => ensure kc r c
+  | none, _, c => c
+
+theorem ensureO_blind : ∀ u, incBlind u = true → ∀ a b c : Tbl, ensureO u a c = ensureO u b c := by
+  intro u hu a b c
+  cases u with
+  | none => rfl
+  | some x => cases hu
+
+theorem ensureO_infl (u : Option (Nat × Nat)) (t : Tbl) : Tbl.le t (lin ensureO u t) := by
+  cases u with
+  | none => exact tbl_le_refl t
+  | some kc => exact ensure_infl kc t
+
+/-- ONE SHARED CHILD.  Scope: workloads whose stores to the child tables are lookup-or-create (`labels(k)`) — `remove` / `clear`
+legitimately make a later `labels(k)` return a NEW child, so they are outside this theorem (the harness checks identity only on
+programs without them).  The value a lookup-or-create leaves in the table is what the call returns its child from.  Any two
+lookup-or-create calls for the same key `k` on the same parent `X0`, in any interleaving, in either back-end, return the same
+child. -/
+theorem one_shared_child (bk : Backend) (threads : List (List (Call (Option (Nat × Nat)))))
+    (hg : GoodThreads bk incBlind threads) (c0 : ICell → Tbl) (sched : List Tid) (X0 : ICell) :
+    let s := run ensureO (world c0 threads) sched
+    ∀ e ∈ writesOf (s.log X0), ∀ e' ∈ writesOf (s.log X0), ∀ k c c', e.2.1 = some (k, c) → e'.2.1 = some (k, c') →
+      (e.2.2.lookup k).isSome = true ∧ e.2.2.lookup k = e'.2.2.lookup k := by
+  intro s e he e' he' k c c' hk hk'
+  obtain ⟨_, hl, _, _⟩ := no_lost_update ensureO incBlind ensureO_blind bk threads hg c0 sched X0
+  have hle := vals_le_cur Tbl.le tbl_le_refl tbl_le_trans (lin ensureO) ensureO_infl (c0 X0) _ hl
   obtain ⟨w, hw⟩ := writes_spec _ _ _ hl e he
   obtain ⟨w', hw'⟩ := writes_spec _ _ _ hl e' he'
   obtain ⟨ev, hev, hv⟩ := writesOf_sub _ e he
   obtain ⟨ev', hev', hv'⟩ := writesOf_sub _ e' he'
-  have h1 : (e.2.2.lookup e.2.1.1).isSome = true := by rw [hw]; exact ensure_has _ _
-  have h2 : (e'.2.2.lookup e'.2.1.1).isSome = true := by rw [hw']; exact ensure_has _ _
+  have h1 : (e.2.2.lookup k).isSome = true := by rw [hw, hk]; exact ensure_has (k, c) _
+  have h2 : (e'.2.2.lookup k).isSome = true := by rw [hw', hk']; exact ensure_has (k, c') _
   refine ⟨h1, ?_⟩
-  rw [← hk] at h2
-  cases ha : e.2.2.lookup e.2.1.1 with
+  cases ha : e.2.2.lookup k with
   | none => rw [ha] at h1; cases h1
   | some a =>
-    cases hb : e'.2.2.lookup e.2.1.1 with
+    cases hb : e'.2.2.lookup k with
     | none => rw [hb] at h2; cases h2
     | some b =>
       have ca := hle ev hev _ _ (by rw [hv]; exact ha)
@@ -258,8 +276,8 @@ def reentrantCollect : List CMicro := compile (canon 0) reentrantCb CollectorReg
 def reentrantRestrictedCollect : List CMicro := compile (canon 0) reentrantCb RestrictedRegistry_collect
 
 def reentrantBlind : CLabel → Bool
-  | (x, 1) => blindSet CollectorRegistry_register (x, 0)
-  | (x, 2) => blindSet CollectorRegistry_unregister (x, 0)
+  | (x, 1) => blindSet .mutex CollectorRegistry_register (x, 0)
+  | (x, 2) => blindSet .mutex CollectorRegistry_unregister (x, 0)
   | _ => false
 
 /-- the composite calls are well locked: the collect skeletons release the registry lock BEFORE calling the collector, so
@@ -279,7 +297,7 @@ unregister / look up from inside `collect()` never block forever -/
 theorem reentrant_collect_never_blocks {U V : Type} (ap : U → V → V → V) (blind : U → Bool) (bk : Backend)
     (threads : List (List (Call U)))
     (h : ∀ calls ∈ threads, ∀ c ∈ calls,
-      ((∃ sk ∈ skeletonsOf bk, c.code0 = canonCode sk ∧ c.bl0 = blindSet sk) ∨
+      ((∃ sk ∈ skeletonsOf bk, c.code0 = canonCode bk sk ∧ c.bl0 = blindSet bk sk) ∨
         (c.code0 = reentrantCollect ∧ c.bl0 = reentrantBlind) ∨
         (c.code0 = reentrantRestrictedCollect ∧ c.bl0 = reentrantBlind)) ∧
       c.Respects bk ∧ c.BlindOk blind)
@@ -300,12 +318,23 @@ theorem reentrant_collect_never_blocks {U V : Type} (ap : U → V → V → V) (
 
 /-! ## Both value back-ends: calls of the generated methods, non-vacuity -/
 
-theorem blindOk_ofSk {U : Type} (blind : U → Bool) (sk : List Sk) (lobj : LockId → Nat) (vobj : Var → Nat)
-    (lab : Var → U) (h : ∀ v ∈ needBlind (flatList sk) [], blind (lab v) = true) :
-    (Call.ofSk sk lobj vobj lab).BlindOk blind := by
+theorem blindOk_ofSk {U : Type} (bk : Backend) (blind : U → Bool) (sk : List Sk) (lobj : LockId → Nat) (vobj : Var → Nat)
+    (lab : Var → U) (h : ∀ v ∈ needBlind (flatList sk) [], blind (lab v) = true)
+    (hc : bk = .mmap → (flatList sk).contains (.call false .childCtor) = true →
+      ∀ v ∈ needBlind (flatList MmapedValue_init) [], blind (lab v) = true) :
+    (Call.ofSk bk sk lobj vobj lab).BlindOk blind := by
   intro x hx
-  simp only [Call.ofSk, blindSet, List.contains_iff_mem] at hx
-  exact h x.1 hx
+  obtain ⟨v, k⟩ := x
+  simp only [Call.ofSk, blindSet] at hx ⊢
+  match k, hx with
+  | 0, hx => exact h v (by simpa [List.contains_iff_mem] using hx)
+  | 1, hx =>
+    cases bk with
+    | mutex => simp at hx
+    | mmap =>
+      simp only [Bool.and_eq_true] at hx
+      exact hc rfl hx.1 v (by simpa [List.contains_iff_mem] using hx.2)
+  | (n + 2), hx => simp at hx
 
 /-- objects: value object `o` (its own lock in memory, the global lock 0 in the multiprocess store) -/
 def bindL (o : Nat) : LockId → Nat := fun l => if l = .global then 0 else o
@@ -319,12 +348,12 @@ theorem bind_respects {U : Type} (bk : Backend) (o : Nat) (c : Call U) (hl : c.l
 
 /-- `inc(a)` on value object `o` -/
 def incCall (bk : Backend) (o a : Nat) : Call (Option Nat) :=
-  Call.ofSk (match bk with | .mutex => MutexValue_inc | .mmap => MmapedValue_inc) (bindL o) (bindV o)
+  Call.ofSk bk (match bk with | .mutex => MutexValue_inc | .mmap => MmapedValue_inc) (bindL o) (bindV o)
     (fun x => if x = .value then some a else none)
 
 /-- `get()` on value object `o` -/
 def getCall (bk : Backend) (o : Nat) : Call (Option Nat) :=
-  Call.ofSk (match bk with | .mutex => MutexValue_get | .mmap => MmapedValue_get) (bindL o) (bindV o) (fun _ => none)
+  Call.ofSk bk (match bk with | .mutex => MutexValue_get | .mmap => MmapedValue_get) (bindL o) (bindV o) (fun _ => none)
 
 theorem incCall_good (bk : Backend) (o a : Nat) :
     wellLockedCode bk (incCall bk o a).bl0 (incCall bk o a).code0 = true ∧ (incCall bk o a).Respects bk ∧
@@ -334,17 +363,17 @@ theorem incCall_good (bk : Backend) (o a : Nat) :
     · exact call_of_generated .mutex MutexValue_inc (by simp [skeletonsOf, mutexSet]) _ _ _
     · exact call_of_generated .mmap MmapedValue_inc (by simp [skeletonsOf, mmapSet]) _ _ _
   · cases bk
-    · refine blindOk_ofSk _ _ _ _ _ ?_
+    · refine blindOk_ofSk _ _ _ _ _ _ ?_ (by intro h; cases h)
       intro v hv
       change v ∈ needBlind (flatList MutexValue_inc) [] at hv
       have h : needBlind (flatList MutexValue_inc) [] = [] := by decide
       rw [h] at hv; cases hv
-    · refine blindOk_ofSk _ _ _ _ _ ?_
-      intro v hv
-      change v ∈ needBlind (flatList MmapedValue_inc) [] at hv
-      have h : ∀ v ∈ needBlind (flatList MmapedValue_inc) [], v ≠ Var.value := by decide
-      have hne := h v hv
-      simp [incBlind, hne]
+    · have hne : ∀ l : List Var, (∀ v ∈ l, v ≠ Var.value) → ∀ v ∈ l,
+          incBlind (if v = Var.value then some a else none) = true := by
+        intro l hl v hv; simp [incBlind, hl v hv]
+      refine blindOk_ofSk _ _ _ _ _ _ (hne _ (by decide)) (fun _ h => by
+        have : (flatList MmapedValue_inc).contains (.call false .childCtor) = false := by decide
+        rw [this] at h; cases h)
 
 theorem getCall_good (bk : Backend) (o : Nat) :
     wellLockedCode bk (getCall bk o).bl0 (getCall bk o).code0 = true ∧ (getCall bk o).Respects bk ∧
@@ -354,8 +383,8 @@ theorem getCall_good (bk : Backend) (o : Nat) :
     · exact call_of_generated .mutex MutexValue_get (by simp [skeletonsOf, mutexSet]) _ _ _
     · exact call_of_generated .mmap MmapedValue_get (by simp [skeletonsOf, mmapSet]) _ _ _
   · cases bk
-    · exact blindOk_ofSk _ _ _ _ _ (by decide)
-    · exact blindOk_ofSk _ _ _ _ _ (by decide)
+    · exact blindOk_ofSk _ _ _ _ _ _ (by decide) (by intro h; cases h)
+    · exact blindOk_ofSk _ _ _ _ _ _ (by intro v _; rfl) (by intro _ _ v _; rfl)
 
 /-- COUNTERS, both back-ends, the statement C02 makes about final values — for the extracted lock protocol.
 Full property: "for every interleaving at bytecode granularity of the real threads, the final value of each counter equals
@@ -378,6 +407,100 @@ theorem counters_sum_partial (bk : Backend) (threads : List (List (Nat × Option
   cases oa.2 with
   | none => exact getCall_good bk oa.1
   | some a => exact incCall_good bk oa.1 a
+
+/-! ### The statement in terms of the PROGRAM SPEC: thread programs are lists of `(value object, amount)` increments -/
+
+theorem stores_append {L X U : Type} [DecidableEq X] (x : X) (p q : List (Micro L X U)) :
+    stores x (p ++ q) = stores x p ++ stores x q := by
+  induction p with
+  | nil => rfl
+  | cons a r ih =>
+    cases a <;> simp only [List.cons_append, stores, ih]
+    split <;> simp
+
+theorem stores_flatten {L X U : Type} [DecidableEq X] (x : X) (ps : List (List (Micro L X U))) :
+    stores x ps.flatten = (ps.map (stores x)).flatten := by
+  induction ps with
+  | nil => rfl
+  | cons p r ih => simp [stores_append, ih]
+
+/-- the only update an `inc(a)` call on value object `o` issues to a value cell is `+a` to its own -/
+theorem stores_incCall (bk : Backend) (o a o' : Nat) :
+    stores ((.value, o') : ICell) (incCall bk o a).code = if o = o' then [some a] else [] := by
+  cases bk
+  · have h : canonCode .mutex MutexValue_inc =
+        [.acquire .value, .load .value, .store .value (.value, 0), .release .value] := rfl
+    simp only [incCall, Call.code, Call.ofSk, h, List.map, Micro.map, stores, bindV]
+    by_cases ho : o = o' <;> simp [ho]
+  · have h : canonCode .mmap MmapedValue_inc =
+        [.acquire .global, .call false .processIdentifier, .load .pid, .load .value, .store .value (.value, 0),
+         .store .timestamp (.timestamp, 0), .load .value, .load .timestamp, .store .file (.file, 0),
+         .release .global] := rfl
+    simp only [incCall, Call.code, Call.ofSk, h, List.map, Micro.map, stores, bindV]
+    by_cases ho : o = o' <;> simp [ho]
+
+/-- thread programs given by the spec -/
+def incThreads (bk : Backend) (spec : List (List (Nat × Nat))) : List (List (Call (Option Nat))) :=
+  spec.map (fun t => t.map (fun oa => incCall bk oa.1 oa.2))
+
+/-- the amounts the spec issues to value object `o`, in program order -/
+def issued (spec : List (List (Nat × Nat))) (o : Nat) : List Nat :=
+  (spec.flatten.filter (fun oa => decide (oa.1 = o))).map (fun oa => oa.2)
+
+theorem allStores_incThreads (bk : Backend) (spec : List (List (Nat × Nat))) (c0 : ICell → Nat) (o : Nat) :
+    allStores c0 (incThreads bk spec) (.value, o) = (issued spec o).map some := by
+  have hthread : ∀ t : List (Nat × Nat),
+      stores ((.value, o) : ICell) (progOf (t.map (fun oa => incCall bk oa.1 oa.2))) =
+        ((t.filter (fun oa => decide (oa.1 = o))).map (fun oa => oa.2)).map some := by
+    intro t
+    induction t with
+    | nil => rfl
+    | cons oa r ih =>
+      have : progOf ((oa :: r).map (fun oa => incCall bk oa.1 oa.2)) =
+          (incCall bk oa.1 oa.2).code ++ progOf (r.map (fun oa => incCall bk oa.1 oa.2)) := by
+        simp [progOf]
+      rw [this, stores_append, ih, stores_incCall]
+      by_cases ho : oa.1 = o <;> simp [ho]
+  unfold allStores world pending init issued incThreads
+  simp only [List.map_map]
+  induction spec with
+  | nil => rfl
+  | cons t r ih =>
+    simp only [List.map_cons, List.flatten_cons, Function.comp, List.filter_append, List.map_append] at ih ⊢
+    rw [ih]
+    congr 1
+    rw [hthread t, List.map_map]
+
+theorem foldr_incs (c : Nat) (l : List Nat) : (l.map some).foldr (lin (incAp Nat.add)) c = c + l.sum := by
+  induction l with
+  | nil => rfl
+  | cons a r ih =>
+    simp only [List.map_cons, List.foldr_cons, ih, List.sum_cons]
+    show Nat.add (c + r.sum) a = c + (a + r.sum)
+    simp only [Nat.add_eq]; omega
+
+/-- COUNTERS, both back-ends, in terms of the program spec: every thread runs the `inc` calls listed for it (any number of
+threads, of calls, of value objects); when all threads have finished, every counter holds its initial value plus the sum of
+ALL amounts the spec issues to it, whatever the schedule.
+`_partial` for the same reason as above: proved of the extracted lock protocol under the interleaving semantics; the link to
+the bytecode is sampled.  NOT proved here either: that the multiprocess store's FILE holds the same sum — the model's
+`write file` step does not carry the value written (that needs a two-cell invariant "file = value whenever the global lock is
+free"); the file is checked by the harness oracle on the real code (signature `C02:lost-update-in-file`). -/
+theorem counter_equals_sum_of_issued_partial (bk : Backend) (spec : List (List (Nat × Nat))) (c0 : ICell → Nat)
+    (sched : List Tid) (o : Nat) :
+    let s := run (incAp Nat.add) (world c0 (incThreads bk spec)) sched
+    finished s → s.cell (.value, o) = c0 (.value, o) + (issued spec o).sum := by
+  intro s hf
+  have hg : GoodThreads bk incBlind (incThreads bk spec) := by
+    intro cs hcs c hc
+    obtain ⟨t, _, rfl⟩ := List.mem_map.mp hcs
+    obtain ⟨oa, _, rfl⟩ := List.mem_map.mp hc
+    exact incCall_good bk oa.1 oa.2
+  have h := no_lost_update_sum Nat.add Nat.add_assoc Nat.add_comm bk (incThreads bk spec) hg c0 sched (.value, o) hf
+  rw [h, allStores_incThreads, foldr_incs]
+
+/-- non-vacuity: the spec 1,2 | 3,4 | 5,6 on object 7 issues 21 -/
+example : (issued [[(7, 1), (7, 2)], [(7, 3), (9, 100), (7, 4)], [(7, 5), (7, 6)]] 7).sum = 21 := by decide
 
 /-- three threads × two increments (1,2 | 3,4 | 5,6) on value object 7 -/
 def demoThreads (bk : Backend) : List (List (Call (Option Nat))) :=
@@ -403,33 +526,56 @@ example : finishedB (run (incAp Nat.add) (world (fun _ => 0) (demoThreads .mmap)
     (run (incAp Nat.add) (world (fun _ => 0) (demoThreads .mmap)) (roundRobin 3 60)).cell (.value, 7) = 21 := by
   decide
 
-/-- `labels(k)` on parent `o`, creating child `c` if the key is absent -/
-def labelsCall (o k c : Nat) : Call (Nat × Nat) :=
-  Call.ofSk MetricWrapperBase_labels (bindL o) (bindV o) (fun _ => (k, c))
+/-- `labels(k)` on parent `o`, creating child `c` if the key is absent (in the multiprocess store the child's value
+constructor runs under the parent lock and takes the global lock: the nested scope is part of the call's code) -/
+def labelsCall (bk : Backend) (o k c : Nat) : Call (Option (Nat × Nat)) :=
+  Call.ofSk bk MetricWrapperBase_labels (bindL o) (bindV o) (fun x => if x = .metrics then some (k, c) else none)
 
 theorem labelsCall_good (bk : Backend) (o k c : Nat) :
-    wellLockedCode bk (labelsCall o k c).bl0 (labelsCall o k c).code0 = true ∧ (labelsCall o k c).Respects bk ∧
-    (labelsCall o k c).BlindOk (fun _ => false) := by
+    wellLockedCode bk (labelsCall bk o k c).bl0 (labelsCall bk o k c).code0 = true ∧ (labelsCall bk o k c).Respects bk ∧
+    (labelsCall bk o k c).BlindOk incBlind := by
+  have hne : ∀ l : List Var, (∀ v ∈ l, v ≠ Var.metrics) → ∀ v ∈ l,
+      incBlind (if v = Var.metrics then some (k, c) else none) = true := by
+    intro l hl v hv; simp [incBlind, hl v hv]
   refine ⟨?_, bind_respects bk o _ rfl rfl, ?_⟩
   · cases bk
     · exact call_of_generated .mutex MetricWrapperBase_labels (by simp [skeletonsOf, mutexSet]) _ _ _
     · exact call_of_generated .mmap MetricWrapperBase_labels (by simp [skeletonsOf, mmapSet]) _ _ _
-  · refine blindOk_ofSk _ _ _ _ _ ?_
-    intro v hv
-    have h : needBlind (flatList MetricWrapperBase_labels) [] = [] := by decide
-    rw [h] at hv; cases hv
+  · exact blindOk_ofSk _ _ _ _ _ _ (hne _ (by decide)) (fun _ _ => hne _ (by decide))
 
-/-- non-vacuity of `one_shared_child`: three threads call `labels(5)` on parent 3 with three different fresh children; under
-the round-robin schedule all three stores are logged and every one of them left child 101 (the first creator's) in the table -/
-example : GoodThreads .mutex (fun _ => false) [[labelsCall 3 5 101], [labelsCall 3 5 102], [labelsCall 3 5 103]] := by
+/-- the nested acquisition is really there: in the multiprocess store the code of `labels()` acquires the global lock while
+holding the parent lock, and `register()` acquires the parent and then the value / global lock while holding the registry
+lock (worst-case library `describe`/`collect`) — `generated_well_locked` checks the rank order on these scopes -/
+example : ((canonCode .mmap MetricWrapperBase_labels).map (fun m => match m with
+      | .acquire l => some (true, l) | .release l => some (false, l) | _ => none)).filterMap id =
+    [(true, .parent), (true, .global), (false, .global), (false, .parent)] := by decide
+example : ((canonCode .mutex CollectorRegistry_register).map (fun m => match m with
+      | .acquire l => some (true, l) | .release l => some (false, l) | _ => none)).filterMap id =
+    [(true, .registry), (true, .parent), (false, .parent), (true, .value), (false, .value), (true, .value), (false, .value),
+     (false, .registry)] := by decide
+
+theorem labels_demo_good (bk : Backend) :
+    GoodThreads bk incBlind [[labelsCall bk 3 5 101], [labelsCall bk 3 5 102], [labelsCall bk 3 5 103]] := by
   intro calls hc c hcc
   simp only [List.mem_cons, List.not_mem_nil, or_false] at hc
   rcases hc with rfl | rfl | rfl <;>
-    (simp only [List.mem_cons, List.not_mem_nil, or_false] at hcc; subst hcc; exact labelsCall_good .mutex 3 5 _)
+    (simp only [List.mem_cons, List.not_mem_nil, or_false] at hcc; subst hcc; exact labelsCall_good bk 3 5 _)
+
+/-- non-vacuity of `one_shared_child`, both back-ends: three threads call `labels(5)` on parent 3 with three different fresh
+children; under the round-robin schedule all three lookup-or-create stores are logged and every one of them left child 101
+(the first creator's) in the table -/
+example : GoodThreads .mutex incBlind [[labelsCall .mutex 3 5 101], [labelsCall .mutex 3 5 102], [labelsCall .mutex 3 5 103]] :=
+  labels_demo_good .mutex
+example : GoodThreads .mmap incBlind [[labelsCall .mmap 3 5 101], [labelsCall .mmap 3 5 102], [labelsCall .mmap 3 5 103]] :=
+  labels_demo_good .mmap
 example :
-    (writesOf ((run ensure (world (fun _ => [])
-        [[labelsCall 3 5 101], [labelsCall 3 5 102], [labelsCall 3 5 103]]) (roundRobin 3 30)).log (.metrics, 3))).map
-      (fun e => e.2.2.lookup 5) = [some 101, some 101, some 101] := by decide
+    (writesOf ((run ensureO (world (fun _ => [])
+        [[labelsCall .mutex 3 5 101], [labelsCall .mutex 3 5 102], [labelsCall .mutex 3 5 103]]) (roundRobin 3 30)).log
+          (.metrics, 3))).map (fun e => e.2.2.lookup 5) = [some 101, some 101, some 101] := by decide
+example :
+    (writesOf ((run ensureO (world (fun _ => [])
+        [[labelsCall .mmap 3 5 101], [labelsCall .mmap 3 5 102], [labelsCall .mmap 3 5 103]]) (roundRobin 3 80)).log
+          (.metrics, 3))).map (fun e => e.2.2.lookup 5) = [some 101, some 101, some 101] := by decide
 
 /-! ## The model is not a tidied version of the code: the measured mutations flip `WellLocked`, and the semantics shows the
 failure each one causes -/
@@ -458,7 +604,7 @@ theorem mutations_flip_well_locked :
 /-- (a) in the semantics: two threads, one unlocked `inc(1)` each; the schedule t0 load, t1 load, t0 store, t1 store loses an
 update (final 1, two increments issued) -/
 theorem unlocked_inc_loses_update :
-    let c : Call (Option Nat) := Call.ofSk mutA (bindL 7) (bindV 7) (fun _ => some 1)
+    let c : Call (Option Nat) := Call.ofSk .mutex mutA (bindL 7) (bindV 7) (fun _ => some 1)
     let s := run (incAp Nat.add) (world (fun _ => 0) [[c], [c]]) [0, 1, 0, 1]
     finishedB s = true ∧ s.cell (.value, 7) = 1 := by decide
 
@@ -472,8 +618,8 @@ theorem yield_under_lock_deadlocks :
 /-- (c) in the semantics: `clear()` by another thread while the unlocked iteration over the child table is open raises the
 iteration error -/
 theorem unlocked_iteration_errors :
-    let it : Call (Option Nat) := Call.ofSk mutC (bindL 3) (bindV 3) (fun _ => none)
-    let cl : Call (Option Nat) := Call.ofSk MetricWrapperBase_clear (bindL 3) (bindV 3) (fun _ => none)
+    let it : Call (Option Nat) := Call.ofSk .mutex mutC (bindL 3) (bindV 3) (fun _ => none)
+    let cl : Call (Option Nat) := Call.ofSk .mutex MetricWrapperBase_clear (bindL 3) (bindV 3) (fun _ => none)
     let s := run (incAp Nat.add) (world (fun _ => 0) [[it], [cl]]) [0, 1, 1, 1]
     s.err (.metrics, 3) = true := by decide
 
